@@ -11,12 +11,12 @@ H = "harness/c18.py"
 
 def plan(tier: str, seed: int) -> Plan:
     thorough = tier == "thorough"
-    T = 400 if thorough else 150
+    T = 500 if thorough else 170
     conds: List[Condition] = []
     for fn, n, plumb in (("path_cmd", 15, [0, 7]), ("pointer_cmd", 13, [1, 6]), ("patch_cmd", 12, [0, 2])):
         step = 3 if fn == "path_cmd" else 4
         for lo in range(0, n, step):
-            conds.append(Condition(f"{fn}:semantics:{lo}-{lo + step - 1}", "cli", H, fn, {"mode": "semantics", "lo": lo, "hi": lo + step - 1}, T,
+            conds.append(Condition(f"{fn}:semantics:{lo}-{lo + step - 1}", "cli", H, fn, {"mode": "semantics", "lo": lo, "hi": lo + step - 1, "ndocs": 5 if thorough else 3}, T,
                                    required=False,
                                    bounds=f"expressions {lo}..{lo + step - 1} of the {n}-entry pool x 5 documents (object, array, truncated, string, empty) x "
                                           "{no-unicode-escape, debug, type checks / uri-decode, expression inline|file}; output options fixed"))
